@@ -396,7 +396,7 @@ func seqProfile0(prop, tier string) *SeqProfile {
 					Note: "KlevFSMig.tla: KlevFS + format migration (Segment.Migrate as a plan, for every segment in order; files carry the record format, index files the format their positions refer to): MigrateOK, CrashM1 / CrashM2 = every prefix and torn class of the migration plan (and of the recovery that follows) recovers to the same messages, all views agreeing, and the migration run again completes"},
 				DesignRun{Module: "KlevFSMig.tla", Cfg: "fsmig_no_rmindex.cfg", Workers: 4, Timeout: 10 * time.Minute, Expect: "CrashM1",
 					Note: "negative control: a migration that does not remove the old index first (seeded change S69 at design level) leaves a non-head segment with a new-format log and old positions"})
-			for _, c := range []string{"FixRecoverStale", "FixShortHdr", "FixTailOrder", "KnownRebase"} {
+			for _, c := range []string{"FixRecoverStale", "FixShortHdr", "FixTailOrder", "KnownRebase", "FreshTmp"} {
 				design = append(design, DesignRun{Module: "KlevFS.tla", Cfg: "fs_no_" + c + ".cfg", Workers: 4, Timeout: 10 * time.Minute, Expect: "Crash1,Crash2",
 					Note: "negative control: the model with " + c + " switched off (the code before the repair / the open finding without its exemption) must violate Crash1 or Crash2"})
 			}
